@@ -937,7 +937,10 @@ impl<'a> Writer<'a> {
 
         if let Some(ref edns) = self.edns {
             let class = Class::from(edns.udp_payload_size);
-            let ttl = Ttl::from((edns.extended_rcode_upper_bits as u32) << 24);
+            // The OPT TTL field is not a TTL: Ttl::from would zero it
+            // whenever the upper bits of the extended RCODE have their
+            // most significant bit set (extended RCODEs >= 2048).
+            let ttl = Ttl::from_raw_field((edns.extended_rcode_upper_bits as u32) << 24);
             self.available += OPT_RECORD_SIZE;
             self.add_rr(
                 HintedName::new(Hint::None, Name::root()),
